@@ -119,3 +119,10 @@ Definition known_K3 (cs : list scan_case) : list nat :=
     existsb (fun nr => mem_id T_force_err (r_tags (snd nr)) &&
                        match find_group (sc_snap c) (fst nr) with Some g => force_notingroup (sc_snap c) g | None => false end)
             (fst (run_once (sc_snap c)))) cs 0.
+
+(* C05, scan side: the scale-up composition (untaints + cloud request) and the node-size cache *)
+Definition mismatches_C05S := mism true pi_decision.
+Definition propfail_C05S (cs : list scan_case) : list nat :=
+  indices_where (fun c => negb (forallb (fun g => match find_group (sc_snap c) (og_name g) with
+                                                 | Some gi => check_C05_cache (mk_ctx (sc_snap c) gi) (gi_state gi) (og_state g)
+                                                 | None => false end) (sc_obs c))) cs 0.
